@@ -190,7 +190,7 @@ def shm_behaviours(ctx, cfg, timeout=1800):
 
 
 SHM_ACTIONS = ["wop", "wl1", "wb1", "ws", "wl2", "wb2", "rop", "l1", "e2", "lk"]
-SHM_GRAPHS = [("MC_AfcShm_g1.cfg", 2000), ("MC_AfcShm_g2.cfg", 1500)]
+SHM_GRAPHS = [("MC_AfcShm_g1.cfg", 2000), ("MC_AfcShm_g2.cfg", 1500), ("MC_AfcShm_g3.cfg", 4000)]
 
 
 def trace_line_to_run(trace_path, n):
@@ -231,15 +231,16 @@ def shm_check(ctx, vh, prop, mc_cfgs, mutant, actions=None):
         ctx.require_actions(r, actions or SHM_ACTIONS)
     # 2. the invariant of this property is not vacuous: the spec-level mutant must be rejected
     sel = []
-    if mutant:
-        rm = ctx.tlc("MC_AfcShm", mutant[0], allow_violation=True, cache=True, timeout=900)
-        if rm.violated != mutant[1]:
+    for mcfg, minv in ([mutant] if mutant and isinstance(mutant[0], str) else (mutant or [])):
+        rm = ctx.tlc("MC_AfcShm", mcfg, allow_violation=True, cache=True, timeout=900)
+        if rm.violated != minv:
             raise verif.ToolError("self-test failed: spec mutant %s gave %r, expected a violation of %s"
-                                  % (mutant[0], rm.violated, mutant[1]))
-        sel.append("spec mutant %s rejected by TLC (%s)" % (mutant[0], rm.violated))
+                                  % (mcfg, rm.violated, minv))
+        sel.append("spec mutant %s rejected by TLC (%s)" % (mcfg, rm.violated))
     # 3. schedules: transition cover of the schedule graphs, replayed on the real WriteState/ReadState
     graphs = {}
     first = None
+    bycap = {}      # capacity -> (combined behaviours, combined trace lines): one validation run each
     for cfg, cap in SHM_GRAPHS:
         info, beh = shm_behaviours(ctx, cfg)
         require_graph_actions(info, SHM_ACTIONS)
@@ -248,15 +249,37 @@ def shm_check(ctx, vh, prop, mc_cfgs, mutant, actions=None):
             beh = verif.sample(ctx.rng, beh, cap)
         tag = "shm-" + cfg[10:-4]
         trace = os.path.join(ctx.workdir, tag + ".trace.ndjson")
-        res = replay(ctx, vh, "shm", beh, tag=tag, opts={"only": prop, "trace": trace, "trace_max": 100000 if ctx.thorough else 500})
+        res = replay(ctx, vh, "shm", beh, tag=tag, opts={"only": prop, "trace": trace,
+                                                         "trace_max": 100000 if ctx.thorough else 400})
         ctx.absorb(res)
-        nev = validate_history(ctx, prop, trace, beh, tag="trace-" + tag)
+        allb, lines = bycap.setdefault(beh[0]["cap"] if beh else 0, ([], []))
+        base = len(allb)
+        allb.extend(beh)
+        nev = 0
+        for line in open(trace):
+            if '"ev":"reset"' in line:
+                e = json.loads(line)
+                e["i"] += base
+                line = e
+            lines.append(line)
+            nev += 1
         graphs[cfg] = {"constants": cfg_constants(cfg), "states": info["states"], "transitions": info["transitions"],
                        "cover_paths": total, "replayed": len(beh),
                        "steps_executed": sum(x.get("steps", 0) for x in res),
                        "history_events_validated_against_AfcAbs": nev}
         if first is None:
             first = (beh, trace)
+    for cap, (allb, lines) in sorted(bycap.items()):
+        tp = os.path.join(ctx.workdir, "shm-cap%d.trace.ndjson" % cap)
+        # one reader universe for the combined runs (readers a run does not have never act)
+        nread = max([e["readers"] for e in lines if isinstance(e, dict)] or [0])
+        with open(tp, "w") as f:
+            for e in lines:
+                if isinstance(e, dict):
+                    e["readers"] = nread
+                    e = json.dumps(e, separators=(",", ":")) + "\n"
+                f.write(e)
+        validate_history(ctx, prop, tp, allb, tag="trace-shm-cap%d" % cap)
     ctx.cov.update({"exhaustive": True, "schedule_graphs": graphs,
                     "design_constants": {c: cfg_constants(c) for c in mc_cfgs}})
     ctx.assumptions += [
